@@ -510,6 +510,7 @@ def generate(rng, tier, index):
                 ["start", "end", "middle"])]
     # environment: the process runs with warnings turned into errors
     plan["warnings_error"] = rng.random() < 0.06
+    plan["other_thread"] = rng.random() < 0.05
     return plan
 
 
@@ -738,7 +739,19 @@ def _execute(plan, out, scratch):
                 schema, io.StringIO(text), overrides=overrides)
         w.http_charset = plan.get("http_charset", "utf-8")
         w.begin_op("load", plan.get("faults") or ())
-        o = ops.config_outcome(fn)
+        if plan.get("other_thread"):
+            # environment: the load runs in a thread that did not import
+            # ZConfig (a worker of the application); one thread at a time
+            import threading
+            box_ = []
+            th = threading.Thread(
+                target=lambda: box_.append(ops.config_outcome(fn)))
+            th.start()
+            th.join()
+            o = box_[0]
+            probe("load-in-another-thread")
+        else:
+            o = ops.config_outcome(fn)
         fired = w.op_fired
         w.end_op("ok" if o["ok"] else o["cls"])
         out["evaluations"] += 1
